@@ -129,7 +129,9 @@ var (
 func outcome(obj *code.Object, err error) string {
 	var b strings.Builder
 	if err != nil {
-		b.WriteString("ERR " + err.Error() + "\n")
+		// refused: the wording is not compared (messages print node addresses, and their order comes from map
+		// iteration); what must agree is THAT the source is refused, and the object when there is one
+		b.WriteString("ERR\n")
 	}
 	if obj != nil {
 		for _, i := range obj.Program {
@@ -149,7 +151,7 @@ func outcome(obj *code.Object, err error) string {
 func compileOn(cc *compiler.Compiler, name, src string) (out string) {
 	defer func() {
 		if r := recover(); r != nil {
-			out = "PANIC " + fmt.Sprint(r)
+			out = "PANIC"
 		}
 	}()
 	return outcome(cc.Compile(name, strings.NewReader(src)))
@@ -168,9 +170,12 @@ func reuseCheck(name, src string, optimise bool, opts []compiler.Option, fresh C
 		ferr = fmt.Errorf("%s", fresh.Errors)
 	}
 	want := outcome(fresh.Obj, ferr)
+	if fresh.Panic != "" {
+		want = "PANIC"
+	}
 	got := compileOn(cc, name, src)
 	prev := lastRefused[optimise]
-	if strings.HasPrefix(got, "ERR ") || strings.HasPrefix(got, "PANIC ") {
+	if strings.HasPrefix(got, "ERR") || got == "PANIC" {
 		lastRefused[optimise] = [2]string{name, src}
 	}
 	if got == want || reuseSeen[prev[1]+"\x00"+src] {
